@@ -1,7 +1,7 @@
 ------------------------------- MODULE MCRpcRead -------------------------------
 (* Model-checking instance of RpcRead: the transaction table (an operator constant a .cfg cannot
    express).  Transaction ids are 10*height + kind digit:
-     1 INVOKE v3   2 L1_HANDLER   3 INVOKE v1 with a REVERTED receipt   4 DEPLOY_ACCOUNT
+     1 INVOKE v3 (with proof facts at the even heights, RpcRead!HasFacts)   2 L1_HANDLER  3 INVOKE v1 with a REVERTED receipt   4 DEPLOY_ACCOUNT
      5 DECLARE     6 DEPLOY (legacy)   7 a second L1_HANDLER (legacy form: no nonce)   8 INVOKE v0 (legacy)
    Variant 0 of every height carries <<invoke, l1 handler, reverted invoke>> (plus a legacy
    invoke v0 at height 2).  Variant 1 is chosen
